@@ -359,41 +359,144 @@ theorem parse_render (is : List Item) (hok : ∀ i ∈ is, i.ok = true) (hsafe :
   intro i hi
   simp [Function.comp, unquote_item i (hok i hi) (hsafe i hi)]
 
-/-! ### join ∘ stringify is `render` of word items -/
-theorem toItem_render (pr : Str × Str) : (toItem pr).render = stringify pr := by
-  unfold toItem stringify
-  by_cases h : pr.1 = [] <;> simp [h, Item.render]
+/-! ### model.Params (`join`) of stringified pairs is `render` of items -/
+theorem splitName_named (n v : Str) (hn : nameOk n = true) : splitName (n ++ '=' :: v) = (n ++ ['='], v) := by
+  simp only [nameOk, Bool.and_eq_true] at hn
+  have hsp := spanP_append nameCh n ('=' :: v) hn.2 (by intro c t' h; cases h; exact nameCh_eq)
+  have hne : n ≠ [] := by simpa using hn.1
+  simp [splitName, hsp, hne]
 
-theorem render_toItem (ps : List (Str × Str)) : render (ps.map toItem) = join (ps.map stringify) := by
+theorem spanP_name_noeq (v : Str) (h : eqFirst v = false) : ∀ r', (spanP nameCh v).2 ≠ '=' :: r' := by
+  induction v with
+  | nil => intro r'; simp [spanP]
+  | cons c r ih =>
+    intro r'
+    simp only [eqFirst] at h
+    by_cases hce : c = '='
+    · simp [hce] at h
+    · simp only [hce, if_false] at h
+      by_cases hsp : reSpace c = true
+      · have hn : nameCh c = false := by simp [nameCh, hsp]
+        simp [spanP, hn, hce]
+      · simp only [hsp, if_false] at h
+        have hn : nameCh c = true := by
+          simp only [Bool.not_eq_true] at hsp
+          simp [nameCh, hsp, hce]
+        simp only [spanP, hn, if_true]
+        exact ih h r'
+
+theorem splitName_none (v : Str) (h : ∀ r', (spanP nameCh v).2 ≠ '=' :: r') : splitName v = ([], v) := by
+  unfold splitName
+  split
+  · next e r heq =>
+    by_cases he : e = '='
+    · subst he; exact absurd heq (h r)
+    · simp [he]
+  · rfl
+
+theorem wordNoEq_all_nameCh (w : Str) (hw : wordOk w = true) (hne : w.all (· != '=') = true) : w.all nameCh = true := by
+  simp only [wordOk, Bool.and_eq_true] at hw
+  rw [List.all_eq_true] at hne ⊢
+  have hb := hw.1.2
+  rw [List.all_eq_true] at hb
+  intro c hc
+  exact nameCh_of_bare (hb c hc) (hne c hc)
+
+theorem needsQuote_of_word (w : Str) (hw : wordOk w = true) : needsQuote w = false := by
+  simp only [wordOk, Bool.and_eq_true] at hw
+  obtain ⟨⟨h1, h2⟩, _⟩ := hw
+  have hne : w ≠ [] := by simpa using h1
+  rw [List.all_eq_true] at h2
+  simp only [needsQuote, Bool.or_eq_false_iff, decide_eq_false_iff_not]
+  refine ⟨hne, ?_⟩
+  rw [Bool.eq_false_iff]
+  intro hany
+  rw [List.any_eq_true] at hany
+  obtain ⟨c, hc, hcc⟩ := hany
+  have hb := h2 c hc
+  simp only [bareCh, Bool.and_eq_true, Bool.not_eq_true', bne_iff_ne, ne_eq] at hb
+  simp [hb.1, hb.2] at hcc
+
+/-- the recorded text of a pair is the rendering of its item -/
+theorem quoteEntry_stringify (pr : Str × Str) (h : roundOk pr = true) : quoteEntry (stringify pr) = (toItem pr).render := by
+  obtain ⟨n, v⟩ := pr
+  simp only [roundOk, Bool.and_eq_true, Bool.or_eq_true, decide_eq_true_eq] at h
+  obtain ⟨hn, hv⟩ := h
+  by_cases hn0 : n = []
+  · subst hn0
+    by_cases hq : needsQuote v = true
+    · simp only [hq, if_true, Bool.and_eq_true, Bool.not_eq_true', Bool.or_eq_true, bne_iff_ne, ne_eq, not_true_eq_false,
+        false_or] at hv
+      have hs := splitName_none v (spanP_name_noeq v hv.2)
+      simp [quoteEntry, stringify, toItem, hs, hq, Item.render]
+    · simp only [hq, if_false, Bool.false_eq_true] at hv
+      have hst : wordOk v = true ∧ v.all (· != '=') = true := by simpa [stable] using hv
+      have hall := wordNoEq_all_nameCh v hst.1 hst.2
+      have hsp := spanP_append nameCh v [] hall (by intro c t' h; cases h)
+      have hs : splitName v = ([], v) := by
+        apply splitName_none
+        intro r'
+        simp only [List.append_nil] at hsp
+        simp [hsp]
+      simp [quoteEntry, stringify, toItem, hs, hq, Item.render]
+  · have hnok : nameOk n = true := by
+      rcases hn with h | h
+      · exact absurd h hn0
+      · exact h
+    have hs := splitName_named n v hnok
+    by_cases hq : needsQuote v = true
+    · simp [quoteEntry, stringify, toItem, hn0, hs, hq, Item.render]
+    · simp [quoteEntry, stringify, toItem, hn0, hs, hq, Item.render]
+
+theorem toItem_ok (pr : Str × Str) (h : roundOk pr = true) : (toItem pr).ok = true ∧ (toItem pr).safe = true := by
+  obtain ⟨n, v⟩ := pr
+  simp only [roundOk, Bool.and_eq_true, Bool.or_eq_true, decide_eq_true_eq] at h
+  obtain ⟨hn, hv⟩ := h
+  by_cases hq : needsQuote v = true
+  · simp only [hq, if_true, Bool.and_eq_true, Bool.not_eq_true', Bool.or_eq_true, bne_iff_ne, ne_eq] at hv
+    by_cases hn0 : n = []
+    · subst hn0
+      have he : eqFirst v = false := by
+        rcases hv.2 with h | h
+        · exact absurd rfl h
+        · exact h
+      simp [toItem, hq, Item.ok, Item.safe, hv.1, he]
+    · have hnok : nameOk n = true := by
+        rcases hn with h | h
+        · exact absurd h hn0
+        · exact h
+      simp [toItem, hq, hn0, Item.ok, Item.safe, hv.1, hnok]
+  · simp only [hq, if_false, Bool.false_eq_true] at hv
+    by_cases hn0 : n = []
+    · subst hn0
+      have hst : wordOk v = true ∧ v.all (· != '=') = true := by simpa [stable] using hv
+      simp [toItem, hq, Item.ok, Item.safe, hst.1, hst.2]
+    · have hst : nameOk n = true ∧ wordOk v = true := by simpa [stable, hn0] using hv
+      simp [toItem, hq, hn0, Item.ok, Item.safe, hst.1, hst.2]
+
+theorem toItem_intended (pr : Str × Str) : (toItem pr).intended = pr := by
+  obtain ⟨n, v⟩ := pr
+  unfold toItem
+  by_cases hq : needsQuote v = true <;> by_cases h1 : n = [] <;> simp [hq, h1, Item.intended]
+
+theorem render_toItem (ps : List (Str × Str)) (h : ∀ pr ∈ ps, roundOk pr = true) :
+    render (ps.map toItem) = join (ps.map stringify) := by
+  unfold join
   induction ps with
   | nil => rfl
   | cons a r ih =>
+    have ha := quoteEntry_stringify a (h a (by simp))
+    have ihr := ih (fun pr hp => h pr (by simp [hp]))
     cases r with
-    | nil => simp [render, join, toItem_render]
+    | nil => simp [render, joinSp, ha]
     | cons b r' =>
-      simp only [List.map_cons, render, join] at ih ⊢
-      rw [toItem_render, ih]
+      simp only [List.map_cons, render, joinSp] at ihr ⊢
+      rw [ha, ihr]
 
-theorem toItem_ok (pr : Str × Str) (h : stable pr = true) : (toItem pr).ok = true ∧ (toItem pr).safe = true := by
-  unfold stable at h
-  unfold toItem
-  by_cases h1 : pr.1 = []
-  · simp only [h1, if_true] at h ⊢
-    exact ⟨h, rfl⟩
-  · simp only [h1, if_false] at h ⊢
-    exact ⟨h, rfl⟩
-
-theorem toItem_intended (pr : Str × Str) : (toItem pr).intended = pr := by
-  unfold toItem
-  by_cases h1 : pr.1 = []
-  · simp only [h1, if_true, Item.intended]
-    exact Prod.ext h1.symm rfl
-  · simp [h1, Item.intended]
-
-/-- stable pairs survive join + re-parse -/
-theorem parse_join_stable (ps : List (Str × Str)) (h : ∀ pr ∈ ps, stable pr = true) :
+/-- pairs satisfying `roundOk` survive model.Params + re-parse -/
+theorem parse_join_roundOk (ps : List (Str × Str)) (h : ∀ pr ∈ ps, roundOk pr = true) :
     parse (join (ps.map stringify)) = ps := by
-  rw [← render_toItem]
+  rw [← render_toItem ps h]
   rw [parse_render (ps.map toItem)
     (by intro i hi; rw [List.mem_map] at hi; obtain ⟨pr, hp, rfl⟩ := hi; exact (toItem_ok pr (h pr hp)).1)
     (by intro i hi; rw [List.mem_map] at hi; obtain ⟨pr, hp, rfl⟩ := hi; exact (toItem_ok pr (h pr hp)).2)]
